@@ -29,6 +29,12 @@ CALLS = {
     "check_cutoffs": identity_first,
     "_check_fh": identity_first,
     "_check_y": identity_first,
+    "check_y": identity_first,
+    "check_fh": identity_first,
+    "fh.to_pandas": const("fh", "L"),
+    "idx.max": const("(zmax_list fh)", "Z"),
+    "idx.min": const("(zmin_list fh)", "Z"),
+    "fh.to_indexer": const("(map (fun h_ => h_ - 1) fh)", "L"),
     "_get_end": prim("(gen_get_end %s %s)", ["Y", "L"], "Z"),
     "_check_window_lengths": prim("(gen_check_window_lengths %s %s %s %s)",
                                   ["Y", "L", "Z", "O"], "RU"),
@@ -36,6 +42,10 @@ CALLS = {
     "self._split_windows": prim("(split_windows %s %s %s %s %s)", ["Z", "Z", "Z", "Z", "L"], "LP"),
     "self._split": prim("(inner_split %s)", ["Y"], "RLP"),
 }
+
+
+def _loc(tr, e, env):
+    raise Unsupported("loc call")
 
 
 def _np_array(tr, e, env):
@@ -96,6 +106,12 @@ FUNCS = [
     dict(path="BaseSplitter.split", coq="gen_split_filter", kind="rgen",
          params=[("@inner_split", "inner_split", "IS"), Y],
          coqtypes={"inner_split": "Z -> res (list (list Z * list Z))"}),
+    # temporal_train_test_split(y, fh=...) with X=None: labels of (y_train, y_test)
+    dict(path="_split_by_fh", coq="gen_split_by_fh", kind="rfun", ret="P",
+         params=[("@index", "index", "L"), ("@rel", "rel", "B"), ("y", "n", "Y"), FH,
+                 ("X", "x_absent", "ABSENT")],
+         env={"y.index": ("index", "L"), "fh.is_relative": ("rel", "B")},
+         coqtypes={"x_absent": "unit"}),
     dict(path="BaseWindowSplitter.get_n_splits", coq="gen_window_n_splits", kind="rfun",
          params=[("@wl", "wl", "Z"), ("@step", "step", "Z"), ("@iw", "iw", "O"),
                  ("@sww", "sww", "B"), ("@fh", "fh", "L"), Y],
@@ -104,7 +120,7 @@ FUNCS = [
 
 HEADER = """(* GENERATED by /verif/translator/split.py from %s -- do not edit, never committed *)
 From Coq Require Import ZArith List Bool.
-Require Import SkV.Lib.Base SkV.Lib.ZRange.
+Require Import SkV.Lib.Base SkV.Lib.ZRange SkV.Lib.Slice.
 Import ListNotations.
 Open Scope Z_scope.
 
